@@ -6,7 +6,9 @@ MODULES = ["contracts.c03_folding", "contracts.c04_process", "contracts.c05_rule
 
 def INCLUDE(name):
     m = re.match(r"(C\d\d)\.", name)
-    return m is not None and m.group(1) in ("C03", "C09", "C05")
+    if m is None:   # inductive loop invariants of functions under a C03 contract
+        return name.startswith("FoldConstantsPass.process_node.loop")
+    return m.group(1) in ("C03", "C09", "C05")
 
 
 def replay(ob):
@@ -15,6 +17,8 @@ def replay(ob):
         return "import sys\nsys.path.insert(0, '/verif')\nfrom replay_lib.opt_native import main\nmain(['softmax_old_opset'])\n"
     if "unresolved_attribute_reference" in ob["name"]:
         return "import sys\nsys.path.insert(0, '/verif')\nfrom replay_lib.opt_native import main\nmain(['attr_ref'])\n"
+    if "process_node.any_inputs" in ob["name"] or "process_node.loop" in ob["name"]:
+        return "import sys\nsys.path.insert(0, '/verif')\nfrom replay_lib.opt_native import main\nmain(['nondeterministic', 'initializer', 'attr_ref'])\n"
     if "evaluation_only_behind_all_guards" in ob["name"]:
         return "import sys\nsys.path.insert(0, '/verif')\nfrom replay_lib.opt_native import main\nmain(['nondeterministic', 'initializer'])\n"
     return C09.replay(ob) or C05.replay(ob)
